@@ -163,6 +163,10 @@ func c09LcClass(err error) string {
 		return "proposerMismatch"
 	case has("update canonical client with non sequencer header"):
 		return "nonSequencer"
+	case has("validator set is not the sequencer"):
+		return "validatorSet"
+	case has("header from sequencer of another rollapp"):
+		return "foreignSequencer"
 	case has("header is from unbonded sequencer"):
 		return "unbonded"
 	case has("client update revision mismatch"):
@@ -177,9 +181,9 @@ func c09LcClass(err error) string {
 		return "nextVal"
 	case has("no cosmos.msg.v1.signer option found"), has("fee payer address:  does not exist"):
 		return "noSigner"
-	case has("disabled: /ibc.core.client.v1.MsgUpdateClient"):
+	case has("disabled: /ibc.core.client.v1.MsgUpdateClient"), has("disabled: /ibc.core.client.v1.MsgSubmitMisbehaviour"):
 		return "nestedDisabled"
-	case has("get sequencer of state info"), has("no block descriptor found"):
+	case has("get sequencer of state info"), has("get next sequencer of state info"), has("no block descriptor found"):
 		return "internal"
 	case has("canonical channel already exists"):
 		return "chanExists"
@@ -1129,6 +1133,9 @@ func (c *c09Gen) headerLine(ci int, cs *coreSnap, ls *c09Snap) string {
 			ts = honestTs(tr.H) // not after the trusted state's time
 			name = "timestamp-not-increasing"
 		}
+	}
+	if len(vals) == 2 {
+		c.r.Hit("header/validator-set-not-the-sequencer-alone")
 	}
 	if len(vals) == 2 && vals[0].Actor == vals[1].Actor {
 		vals, ps, pd, name = []hdrVal{{signer, 1, true}}, signer, signer, "honest"
